@@ -215,6 +215,9 @@ fn command_go(
         time = Some(Duration::from_millis(move_time));
     }
 
+    // Raise the flag before the timer thread exists, so that the timer cannot lose the race
+    search_is_running.store(true, Relaxed);
+
     if let Some(time) = time {
         if !infinite {
             // Cut 5 ms from the time because sleep always takes more than given
@@ -235,7 +238,6 @@ fn command_go(
     }
 
     let thread = thread::spawn({
-        search_is_running.store(true, Relaxed);
         let data_mutex = data_mutex.clone();
         let search_is_running = search_is_running.clone();
         move || {
@@ -248,14 +250,15 @@ fn command_go(
                 depth,
             );
 
+            // Be ready for the next command before the GUI can react to `bestmove`
+            search_is_running.store(false, Relaxed);
+            *current_game = None;
+
             if let Some(best_move) = best_move {
                 println!("bestmove {}", best_move.uci_notation());
             } else {
                 println!("bestmove none");
             }
-
-            search_is_running.store(false, Relaxed);
-            *current_game = None;
         }
     });
 
